@@ -1,6 +1,8 @@
 package main
 
 import (
+	"bytes"
+	"compress/gzip"
 	"context"
 	"encoding/base64"
 	"fmt"
@@ -526,6 +528,29 @@ func c15API(c *Ctx, optName string, opts ...larking.MuxOption) {
 			continue
 		}
 		expectRelease("api-cancel", p.what, p.ok)
+	}
+	// … with a gzip request body: the disconnect falls BETWEEN messages (each one sync-flushed, so
+	// fully decodable), the handler has them and is blocked in the next receive
+	for _, nmsg := range []int{1, 2} {
+		drain()
+		conn, err := net.Dial("tcp", addr)
+		if err != nil {
+			continue
+		}
+		fmt.Fprintf(conn, "POST /c15/recv HTTP/1.1\r\nHost: x\r\nContent-Type: application/json\r\nContent-Encoding: gzip\r\nTransfer-Encoding: chunked\r\n\r\n")
+		var zb bytes.Buffer
+		zw := gzip.NewWriter(&zb)
+		for k := 0; k < nmsg; k++ {
+			fmt.Fprintf(zw, `{"name":"m%d"}`, k) // nothing after the closing brace: no partial message is pending
+			zw.Flush() //nolint
+			fmt.Fprintf(conn, "%x\r\n%s\r\n", zb.Len(), zb.Bytes())
+			zb.Reset()
+		}
+		time.Sleep(80 * time.Millisecond)
+		conn.Close()
+		what := fmt.Sprintf("http-gzip-stream-disconnect-between-messages/%d-sent", nmsg)
+		c.Eval("api-cancel", what, true)
+		expectRelease("api-cancel", what, "recv-error")
 	}
 	// … and while the handler is blocked in its FIRST receive of an HttpBody upload: before any body
 	// byte, and inside the first chunk (the announced chunk is longer than what arrives)
